@@ -275,7 +275,7 @@ def r3(model, rep):
         if not m:
             raise AnalysisError("class %s: 'The following limits apply' sentence not found" % kind)
         want = [x.strip() for x in m.group(1).split(",") if x.strip()]
-        got = limits_list(model, owner, fn)
+        got = limits_list(model, owner, fn, kind)
         ok = sorted(got) == sorted(want)
         if not ok:
             rep.violation("R3", "components.%s._get_limits" % owner, "%s:%d" % (rel, fn.lineno),
@@ -297,8 +297,21 @@ def r3(model, rep):
     rep.instance("R3", "components.LIMITS_DEFAULT == documented defaults", "%s:1" % rel, ok)
 
 
-def limits_list(model, owner, fn):
+def limits_list(model, owner, fn, kind=None):
     rets = [n for n in ast.walk(fn) if isinstance(n, ast.Return)]
+    # return list(self.X) / tuple(self.X) / self.X with X a class-level constant sequence: the one the component's own class resolves to
+    if len(rets) == 1 and kind is not None:
+        v = rets[0].value
+        if isinstance(v, ast.Call) and isinstance(v.func, ast.Name) and v.func.id in ("list", "tuple") and len(v.args) == 1 and not v.keywords:
+            v = v.args[0]
+        if isinstance(v, ast.Attribute) and isinstance(v.value, ast.Name) and v.value.id in ("self", "cls") and \
+                not any(isinstance(x, ast.Attribute) and x.attr == v.attr and isinstance(x.ctx, (ast.Store, ast.Del)) for t in model.tree.values() for x in ast.walk(t)):
+            cdef, node = model.class_attr(kind, v.attr)
+            if node is not None:
+                if isinstance(node, (ast.List, ast.Tuple)) and all(isinstance(e, ast.Constant) and isinstance(e.value, str) for e in node.elts):
+                    return [e.value for e in node.elts]
+                if ast.unparse(node) in ("tuple(LIMITS_DEFAULT)", "list(LIMITS_DEFAULT)", "tuple(LIMITS_DEFAULT.keys())", "list(LIMITS_DEFAULT.keys())"):
+                    return list(model.const_value("components", "LIMITS_DEFAULT").keys())
     if len(rets) == 1 and isinstance(rets[0].value, ast.List) and all(isinstance(e, ast.Constant) for e in rets[0].value.elts):
         return [e.value for e in rets[0].value.elts]
     # base class: every key of LIMITS_DEFAULT
